@@ -52,6 +52,8 @@ MC = [
     ("MC_KeyKeeper", "KeyKeeper_reuse.cfg", ("LatchedIsRecoverable", "AttestOnlyAfterStoreAndReadBack"), None),
     # ... and so must the design whose read-back reports success after failed attempts
     ("MC_KeyKeeper", "KeyKeeper_failopen.cfg", ("LatchedIsRecoverable", "AttestOnlyAfterStoreAndReadBack"), None),
+    # a design that accepts the local key file only when its incarnation number equals the one of the status document
+    ("MC_KeyKeeper", "KeyKeeper_incmatch.cfg", "RestartUsesLocal", None),
 ]
 
 JOBS_QUICK = [
@@ -63,8 +65,13 @@ JOBS_QUICK = [
     # transient storage faults: one call of the store / read-back step fails, the next poll finds the disk healthy
     ("fresh", "store-rename-fails"), ("fresh", "readback-fails"), ("rotation", "store-create-fails"),
     ("fresh", "readback-fails-3x"),
+    # the host states the key's incarnation number in the key document only / differently in the two documents
+    ("fresh-inc-key-only", "none"), ("restart-with-key-inc-key-only", "none"), ("fresh-inc-differ", "attest-lost"),
 ]
-JOBS_MORE = [("fresh", "store-create-fails"), ("fresh", "store-write-fails"), ("fresh", "store-rename-fails-twice"),
+THIN = {"fresh-inc-key-only": 3, "restart-with-key-inc-key-only": 2, "fresh-inc-differ": 3}     # quick: every n-th kill point
+JOBS_MORE = [("fresh-inc-status-only", "none"), ("fresh-inc-equal", "none"), ("restart-with-key-inc-differ", "none"),
+             ("fresh-inc-key-only", "readback-fails"),
+             ("fresh", "store-create-fails"), ("fresh", "store-write-fails"), ("fresh", "store-rename-fails-twice"),
              ("fresh", "store-rename-fails+attest-lost"), ("rotation", "readback-fails"), ("unreadable-local-key", "store-rename-fails"),
              ("fresh", "status-invalid"), ("fresh", "status-reset"), ("fresh", "attest-reset"), ("restart-with-key", "status-fail"),
              ("restart-with-key", "status-reset"), ("rotation", "attest-err"), ("rotation", "acquire-malformed"),
@@ -105,6 +112,8 @@ def sweep(c, bindir, jobs, thorough, workers=8):
                     raise util.ToolError("baseline of %s/%s yields only %d kill points" % (sc, plan, len(pts)))
                 if not thorough and len(pts) > 100:
                     pts = pts[::2]          # four store/read-back rounds in one run: every second kill point in the quick tier
+                if not thorough and sc in THIN:
+                    pts = pts[::THIN[sc]]
                 out, skipped = [], 0
                 for p in [None] + pts:
                     r = sw.case(0, sc, plan, p)
